@@ -36,7 +36,7 @@ WATCHDOG = {"quick": 900, "thorough": 3300}
 WTESTS = {"groups": ['list_structure'], "tests": ['tests/test_goofit.py', 'tests/test_convert.py']}
 REQUIRED = {"enum:all-shapes-and-patterns": 1, "enum:permutations>=4": 100, "enum:leaf-not-in-event-raises": 10,
             **{f"structure:{f}{w}": 2 for f, w in A.STRUCTURES}, **{f"lineshape:{k}": 4 for k in A.LS_KINDS}, "topology:two-resonances": 4, "topology:cascade": 4,
-            "language:cpp": 10, "language:python": 10, "event:4-permutations": 2, "event:0": 2, "event:1": 2, "event:2": 2, "expanded-by-name": 2,
+            "language:cpp": 10, "language:python": 10, "event:4-permutations": 2, "event:0": 2, "event:1": 2, "event:2": 2, "event:rearranged": 2, "event:identical-particles-not-adjacent": 2, "same-amplitudes-other-event-order-same-process": 2, "expanded-by-name": 2,
             "C18.list_structure.equals_bruteforce": 1000}
 EXHAUSTIVE_NOTE = "(a) is exhaustive: all binary tree shapes with 2..4 leaves x all leaf labellings x all 256 event types over a 4-letter alphabet"
 ASSUMPTIONS = ["the mapping structure-key -> spin-factor kinds is the library's published table (input data)", "resonance-first ordering of cascade amplitudes (the only one the code supports)",
@@ -159,7 +159,13 @@ def check_file(ctx, model, style_seed, workload="gen"):
             ctx.hit("event:4-permutations")
         for e in o["ls"]:
             ctx.hit("lineshape:" + e["kind"])
-    ctx.hit("event:" + str(A.EVENT_TYPES.index(model["event"])))
+    ev_idx = [i for i, e in enumerate(A.EVENT_TYPES) if sorted(e) == sorted(model["event"])][0]
+    ctx.hit("event:" + str(ev_idx))
+    if model["event"] != A.EVENT_TYPES[ev_idx]:
+        ctx.hit("event:rearranged")
+    fin = model["event"][1:]
+    if any(fin[i] == fin[j] and any(fin[k] != fin[i] for k in range(i + 1, j)) for i in range(4) for j in range(i + 1, 4)):
+        ctx.hit("event:identical-particles-not-adjacent")
     for ln, trees in groups:
         for t in trees:
             a, b = t.kids
@@ -274,7 +280,19 @@ def run(ctx):
             if len(ctx.violations) >= ctx.max_violations:
                 return
     for _ in range(ctx.pick(1, 12)):
-        check_file(ctx, A.gen_fourbody(rng), rng.randrange(10**9))
+        model = A.gen_fourbody(rng)
+        seed = rng.randrange(10**9)
+        check_file(ctx, model, seed)
+        # the same amplitudes again in the same process under another arrangement of the event type
+        fin = model["event"][1:]
+        other = fin[:]
+        for _try in range(8):
+            rng.shuffle(other)
+            if other != fin:
+                break
+        if other != fin:
+            ctx.hit("same-amplitudes-other-event-order-same-process")
+            check_file(ctx, {**model, "event": [model["event"][0], *other]}, seed)
     for name, k in contracts.COUNTS.items():
         if name.startswith("C18."):
             ctx.mon(name, k)
